@@ -1,4 +1,5 @@
 """C10 - scalar matchers and combinators accept exactly their mathematical predicate."""
+import os
 import re
 
 from engine import cfg, lib
@@ -302,6 +303,49 @@ def c10h(ctx, tu):
     return n
 
 
+IDENTITY_WITNESS = r'''
+#include <trompeloeil.hpp>
+#include <string>
+#include <cstdint>
+namespace w {
+// A plain value v used as an operand accepts x exactly when v == x.  param_matches_impl's plain-value branch
+// evaluates  identity<U>(v) == x : for operand types that are equality comparable with the argument type the
+// operand must reach the == UNCONVERTED (identity returns a reference to the very operand); only a type that
+// cannot be compared as it is may be converted to the argument type first.
+template <typename Param, typename Operand>
+constexpr bool unconverted() {
+  return std::is_same<decltype(::trompeloeil::identity<Param>(std::declval<Operand&>())), Operand&>::value &&
+         std::is_same<decltype(::trompeloeil::identity<Param>(std::declval<const Operand&>())), const Operand&>::value;
+}
+#define W(P, O) static_assert(unconverted<P, O>(), "operand " #O " for a " #P " argument must be compared unconverted");
+W(unsigned char, int) W(short, int) W(int, long long) W(std::int8_t, long) W(bool, int) W(int, unsigned)
+W(unsigned, int) W(char, int) W(long, short) W(unsigned long long, int) W(int, int) W(double, int) W(int, double)
+W(float, double) W(std::string, std::string) W(int*, int*) W(const int*, int*)
+W(std::string, const char*)      // std::string == char const* exists: compared as it is
+struct OnlyFromInt { explicit OnlyFromInt(int); };
+bool operator==(OnlyFromInt const&, OnlyFromInt const&);
+static_assert(std::is_same<decltype(::trompeloeil::identity<OnlyFromInt>(std::declval<const int&>())), OnlyFromInt>::value,
+              "an operand that is not comparable as it is gets converted to the argument type");
+}
+int main() {}
+'''
+
+
+def c10i(ctx):
+    from engine import facts, cc
+    path = os.path.join(facts.gen_dir(), "c10_identity.cpp")
+    with open(path, "w") as fh:
+        fh.write(IDENTITY_WITNESS)
+    cfgs = [("clang++", "c++17")] if ctx.tier == "quick" else [(c, s) for c in ("clang++", "g++") for s in ("c++14", "c++17", "c++20")]
+    for (c, s), (rc, out) in zip(cfgs, cc.run_many([(cc.syntax_cmd(c, s, path), None) for c, s in cfgs])):
+        first = ""
+        if rc != 0:
+            m = re.search(r"error: .*", out)
+            first = m.group(0)[:300] if m else out[-400:]
+        ctx.ob("C10.i", "plain-value operands reach operator== unconverted", rc == 0, pattern="verif:rules/C10.py",
+               unit="%s@%s" % (c, s), detail="" if rc == 0 else "type witness failed: " + first)
+
+
 def run(ctx):
     ctx.explanation = (
         "Every scalar matcher is a single return expression (or a fold); its truth table is obtained by "
@@ -328,6 +372,7 @@ def run(ctx):
         c10g(ctx, tu)
         c10h(ctx, tu)
         units.append({"unit": tu.name, "functions": len(tu.fns)})
+    c10i(ctx)
     ctx.floor("C10.a comparison functor instantiations", total, 7)
     for name in ("any_of_checker", "all_of_checker", "none_of_checker"):
         ctx.floor("C10.e arities of " + name, len(ar.get(name, ())), 3)
